@@ -51,21 +51,344 @@ theorem C13_gen_install_uninstall :
       (n.registerApp c l hl f).portMap = Gen.SoftwareRegs.installPortMap n.next (c.port, c.proto) n.portMap) :=
   ⟨C13_gen_uninstall_tables, fun n c l hl f => ⟨(C13_gen_install_tables n c l hl f).1, (C13_gen_install_tables n c l hl f).2.2.1⟩⟩
 
-/-- an object is a Service or an Application, not both (the Python class; holds on every reachable node: uids are handed out once) -/
+/-! ### the invariant of the registries (every node reachable by `step` from a node without software)
+
+`RegWF n`: uids of the objects in both heaps are below the counter `next` (handed out once), no uid is in both heaps (an object is a
+Service or an Application — the Python class), and every entry of `software` is stored under ITS OBJECT's name (`install` writes
+`self.software[software.name] = software`).  Proved for the empty registries and preserved by EVERY model operation; the two
+whole-method ties below therefore need no hypothesis on reachable nodes. -/
+
+def sm (n : Node) : List Meta := n.svcs.map (·.m)
+def am (n : Node) : List Meta := n.apps.map (·.m)
+def lookM (l : List Meta) (u : Nat) : Option Meta := l.find? (fun m => m.uid == u)
+
+theorem findSvc_meta (n : Node) (u : Nat) : (n.findSvc u).map (·.m) = lookM (sm n) u := by
+  simp only [Node.findSvc, lookM, sm, List.find?_map]; rfl
+
+theorem findApp_meta (n : Node) (u : Nat) : (n.findApp u).map (·.m) = lookM (am n) u := by
+  simp only [Node.findApp, lookM, am, List.find?_map]; rfl
+
+theorem metaOf_eq (n : Node) (u : Nat) : n.metaOf u = (lookM (sm n) u).or (lookM (am n) u) := by
+  unfold Node.metaOf
+  rw [← findSvc_meta, ← findApp_meta]
+  cases n.findSvc u <;> simp
+
+theorem lookM_none_of_lt (l : List Meta) (k : Nat) (h : ∀ m ∈ l, m.uid < k) : lookM l k = none := by
+  unfold lookM
+  rw [List.find?_eq_none]
+  intro m hm
+  have := h m hm
+  simp; omega
+
+theorem lookM_some (l : List Meta) (u : Nat) (m : Meta) (h : lookM l u = some m) : m ∈ l ∧ m.uid = u := by
+  unfold lookM at h
+  refine ⟨List.mem_of_find?_eq_some h, ?_⟩
+  have := List.find?_some h
+  simpa using this
+
+theorem lookM_append (l : List Meta) (x : Meta) (u : Nat) :
+    lookM (l ++ [x]) u = (lookM l u).or (if x.uid = u then some x else none) := by
+  unfold lookM
+  rw [List.find?_append]
+  by_cases hx : x.uid = u <;> simp [List.find?_cons, hx]
+
+/-- an object is a Service or an Application, not both (the Python class) -/
 def OneKind (n : Node) : Prop := ∀ u, n.findSvc u = none ∨ n.findApp u = none
 
+/-- every entry of `software` is stored under its object's name: `software.name == software_name` for the popped object -/
+def Named (n : Node) : Prop := ∀ name u, dget name n.software = some u → n.nameOf u = some name
+
+structure RegWF (n : Node) : Prop where
+  svcLt : ∀ m ∈ sm n, m.uid < n.next
+  appLt : ∀ m ∈ am n, m.uid < n.next
+  disj : ∀ m ∈ sm n, ∀ m' ∈ am n, m.uid ≠ m'.uid
+  named : ∀ e ∈ n.software, ((lookM (sm n) e.2).or (lookM (am n) e.2)).map (·.cls.name) = some e.1
+
+theorem dget_mem_pair {κ ν} [DecidableEq κ] (k : κ) (v : ν) (l : List (κ × ν)) (h : dget k l = some v) : (k, v) ∈ l := by
+  induction l with
+  | nil => simp [dget] at h
+  | cons e t ih =>
+    obtain ⟨k', v'⟩ := e
+    by_cases hk : k' = k
+    · simp only [dget, hk, if_true, Option.some.injEq] at h; subst hk; subst h; exact List.mem_cons_self
+    · simp only [dget, hk, if_false] at h; exact List.mem_cons_of_mem _ (ih h)
+
+theorem mem_dset_cases {κ ν} [DecidableEq κ] (k : κ) (v : ν) (l : List (κ × ν)) (e : κ × ν) (h : e ∈ dset k v l) :
+    e = (k, v) ∨ e ∈ l := by
+  induction l with
+  | nil => simp [dset] at h; exact Or.inl h
+  | cons e' t ih =>
+    obtain ⟨k', v'⟩ := e'
+    by_cases hk : k' = k
+    · simp only [dset, hk, if_true, List.mem_cons] at h
+      rcases h with h | h
+      · exact Or.inl h
+      · exact Or.inr (List.mem_cons_of_mem _ h)
+    · simp only [dset, hk, if_false, List.mem_cons] at h
+      rcases h with h | h
+      · exact Or.inr (h ▸ List.mem_cons_self)
+      · rcases ih h with h | h
+        · exact Or.inl h
+        · exact Or.inr (List.mem_cons_of_mem _ h)
+
+theorem mem_ddel_sub {κ ν} [DecidableEq κ] (k : κ) (l : List (κ × ν)) (e : κ × ν) (h : e ∈ ddel k l) : e ∈ l := by
+  induction l with
+  | nil => simp [ddel] at h
+  | cons e' t ih =>
+    obtain ⟨k', v'⟩ := e'
+    by_cases hk : k' = k
+    · simp only [ddel, hk, if_true] at h; exact List.mem_cons_of_mem _ h
+    · simp only [ddel, hk, if_false, List.mem_cons] at h
+      rcases h with h | h
+      · exact h ▸ List.mem_cons_self
+      · exact List.mem_cons_of_mem _ (ih h)
+
+/-- `RegWF` gives the two facts the whole-method ties need -/
+theorem RegWF.oneKind {n : Node} (h : RegWF n) : OneKind n := by
+  intro u
+  cases hs : n.findSvc u with
+  | none => exact Or.inl rfl
+  | some i =>
+    cases ha : n.findApp u with
+    | none => exact Or.inr rfl
+    | some j =>
+      exfalso
+      have h1 := findSvc_meta n u
+      have h2 := findApp_meta n u
+      rw [hs] at h1; rw [ha] at h2
+      obtain ⟨m1, e1⟩ := lookM_some _ _ _ h1.symm
+      obtain ⟨m2, e2⟩ := lookM_some _ _ _ h2.symm
+      exact h.disj _ m1 _ m2 (e1.trans e2.symm)
+
+theorem RegWF.isNamed {n : Node} (h : RegWF n) : Named n := by
+  intro name u hd
+  have := h.named (name, u) (dget_mem_pair name u n.software hd)
+  simpa [Node.nameOf, metaOf_eq] using this
+
+/-- registries without software are well-formed (whatever the power state and durations) -/
+theorem C13_regwf_empty (n : Node) (hs : n.svcs = []) (ha : n.apps = []) (hw : n.software = []) : RegWF n := by
+  refine ⟨?_, ?_, ?_, ?_⟩ <;> simp [sm, am, hs, ha, hw]
+
+/-- an operation that keeps the objects' identities (their `Meta`) and the counter, and adds nothing to `software`, keeps `RegWF` -/
+theorem RegWF.same {n n' : Node} (h : RegWF n) (hs : sm n' = sm n) (ha : am n' = am n) (hn : n'.next = n.next)
+    (hw : ∀ e ∈ n'.software, e ∈ n.software) : RegWF n' := by
+  refine ⟨?_, ?_, ?_, ?_⟩
+  · rw [hs, hn]; exact h.svcLt
+  · rw [ha, hn]; exact h.appLt
+  · rw [hs, ha]; exact h.disj
+  · rw [hs, ha]; exact fun e he => h.named e (hw e he)
+
+theorem RegWF.registerSvc {n : Node} (h : RegWF n) (c : Cls) (l : List Nat) (hl : Health) (f : Int) : RegWF (n.registerSvc c l hl f) := by
+  have hsm : sm (n.registerSvc c l hl f) = sm n ++ [⟨n.next, c, l⟩] := by simp [sm, Node.registerSvc]
+  have ham : am (n.registerSvc c l hl f) = am n := rfl
+  have hnx : (n.registerSvc c l hl f).next = n.next + 1 := rfl
+  have hsw : (n.registerSvc c l hl f).software = dset c.name n.next n.software := rfl
+  refine ⟨?_, ?_, ?_, ?_⟩
+  · rw [hsm, hnx]; intro m hm
+    rcases List.mem_append.1 hm with h1 | h1
+    · have := h.svcLt m h1; omega
+    · simp at h1; subst h1; simp
+  · rw [ham, hnx]; intro m hm; have := h.appLt m hm; omega
+  · rw [hsm, ham]; intro m hm m' hm'
+    rcases List.mem_append.1 hm with h1 | h1
+    · exact h.disj m h1 m' hm'
+    · simp at h1; subst h1; have := h.appLt m' hm'; simp; omega
+  · rw [hsm, ham, hsw]; intro e he
+    rcases mem_dset_cases _ _ _ _ he with he' | he'
+    · subst he'
+      simp [lookM_append, lookM_none_of_lt _ _ h.svcLt]
+    · have hold := h.named e he'
+      rw [lookM_append]
+      cases hs : lookM (sm n) e.2 with
+      | some m => simpa [hs] using hold
+      | none =>
+        cases ha : lookM (am n) e.2 with
+        | none => simp [hs, ha] at hold
+        | some m' =>
+          obtain ⟨hm', hu⟩ := lookM_some _ _ _ ha
+          have := h.appLt m' hm'
+          have hne : ¬ n.next = e.2 := by omega
+          simp [hs, ha, hne] at hold ⊢; exact hold
+
+theorem RegWF.registerApp {n : Node} (h : RegWF n) (c : Cls) (l : List Nat) (hl : Health) (f : Int) : RegWF (n.registerApp c l hl f) := by
+  have hsm : sm (n.registerApp c l hl f) = sm n := rfl
+  have ham : am (n.registerApp c l hl f) = am n ++ [⟨n.next, c, l⟩] := by simp [am, Node.registerApp]
+  have hnx : (n.registerApp c l hl f).next = n.next + 1 := rfl
+  have hsw : (n.registerApp c l hl f).software = dset c.name n.next n.software := rfl
+  refine ⟨?_, ?_, ?_, ?_⟩
+  · rw [hsm, hnx]; intro m hm; have := h.svcLt m hm; omega
+  · rw [ham, hnx]; intro m hm
+    rcases List.mem_append.1 hm with h1 | h1
+    · have := h.appLt m h1; omega
+    · simp at h1; subst h1; simp
+  · rw [hsm, ham]; intro m hm m' hm'
+    rcases List.mem_append.1 hm' with h1 | h1
+    · exact h.disj m hm m' h1
+    · simp at h1; subst h1; have := h.svcLt m hm; simp; omega
+  · rw [hsm, ham, hsw]; intro e he
+    rcases mem_dset_cases _ _ _ _ he with he' | he'
+    · subst he'
+      simp [lookM_append, lookM_none_of_lt _ _ h.svcLt, lookM_none_of_lt _ _ h.appLt]
+    · have hold := h.named e he'
+      rw [lookM_append]
+      cases hs : lookM (sm n) e.2 with
+      | some m => simpa [hs] using hold
+      | none =>
+        cases ha : lookM (am n) e.2 with
+        | none => simp [hs, ha] at hold
+        | some m' => simpa [hs, ha] using hold
+
+theorem RegWF.uninstall {n n' : Node} (h : RegWF n) (name : String) (hu : n.uninstall name = some n') : RegWF n' := by
+  obtain ⟨h1, h2, h3, _⟩ := uninstall_heap n n' name hu
+  refine h.same (by simp [sm, h1]) (by simp [am, h2]) h3 ?_
+  unfold Node.uninstall at hu
+  split at hu
+  · cases hu; exact fun e he => he
+  · split at hu
+    · split at hu
+      · cases hu; exact fun e he => mem_ddel_sub _ _ e he
+      · cases hu
+    · split at hu
+      · split at hu
+        · cases hu; exact fun e he => mem_ddel_sub _ _ e he
+        · cases hu
+      · cases hu; exact fun e he => mem_ddel_sub _ _ e he
+
+theorem RegWF.evict {n n1 : Node} (h : RegWF n) (name : String) (he : n.evict name = some n1) : RegWF n1 := by
+  unfold Node.evict at he
+  split at he
+  · exact h.uninstall name he
+  · cases he; exact h
+
+theorem RegWF.installSvc {n n' : Node} (h : RegWF n) (c : Cls) (cfg : Bool) (l : List Nat) (hl : Health) (f : Int)
+    (hi : n.installSvc c cfg l hl f = some n') : RegWF n' := by
+  unfold Node.installSvc at hi
+  split at hi
+  · cases hi; exact h
+  · cases he : n.evict c.name with
+    | none => simp [he] at hi
+    | some n1 =>
+      simp only [he, Option.map_some, Option.some.injEq] at hi
+      subst hi
+      exact (h.evict c.name he).registerSvc c l hl f
+
+theorem RegWF.installApp {n n' : Node} (h : RegWF n) (c : Cls) (cfg : Bool) (l : List Nat) (hl : Health) (f : Int)
+    (hi : n.installApp c cfg l hl f = some n') : RegWF n' := by
+  unfold Node.installApp at hi
+  split at hi
+  · cases hi; exact h
+  · cases he : n.evict c.name with
+    | none => simp [he] at hi
+    | some n1 =>
+      simp only [he, Option.map_some, Option.some.injEq] at hi
+      subst hi
+      exact (h.evict c.name he).registerApp c l hl f
+
+theorem RegWF.deliverEvs {n : Node} (h : RegWF n) (op : Op) : RegWF (n.deliverEvs op) :=
+  h.same (by simp [sm, Node.deliverEvs, List.map_map, Function.comp_def])
+    (by simp [am, Node.deliverEvs, List.map_map, Function.comp_def]) rfl (fun _ he => he)
+
+/-- changing only the power state and its countdowns keeps `RegWF` -/
+theorem RegWF.power {n : Node} (h : RegWF n) (p : Power) (up down : Int) : RegWF { n with power := p, upCd := up, downCd := down } :=
+  h.same rfl rfl rfl (fun _ he => he)
+
+/-- **`C13_regwf_step`: every model operation preserves the invariant** (all 18 operations, the raising ones included) -/
+theorem C13_regwf_step (n : Node) (op : Op) (h : RegWF n) : RegWF (n.step op).1 := by
+  cases op with
+  | installSvc c cfg l hl f =>
+    simp only [Node.step]
+    cases hi : n.installSvc c cfg l hl f with
+    | none => exact h
+    | some n' => exact h.installSvc c cfg l hl f hi
+  | installApp c cfg l hl f =>
+    simp only [Node.step]
+    cases hi : n.installApp c cfg l hl f with
+    | none => exact h
+    | some n' => exact h.installApp c cfg l hl f hi
+  | uninstall name =>
+    simp only [Node.step]
+    cases hu : n.uninstall name with
+    | none => exact h
+    | some n' => exact h.uninstall name hu
+  | reqInstall name c =>
+    simp only [Node.step]
+    split
+    · exact h
+    · split
+      · exact h
+      · cases c with
+        | none => exact h
+        | some cl =>
+          obtain ⟨c, l⟩ := cl
+          cases hi : n.installApp c false l .good 2 with
+          | none => simp only [hi]; exact h
+          | some n1 =>
+            have h1 := h.installApp c false l .good 2 hi
+            simp only [hi]
+            split
+            · exact h1.same rfl (by simp [am, List.map_map, Function.comp_def]) rfl (fun _ he => he)
+            · exact h1
+  | reqUninstall name =>
+    simp only [Node.step]
+    split
+    · exact h
+    · split
+      · exact h
+      · cases hu : n.uninstall name with
+        | none => exact h
+        | some n' => exact h.uninstall name hu
+  | svcReq name r => exact h.deliverEvs _
+  | appReq name r => exact h.deliverEvs _
+  | svcApi v e => simp only [Node.step]; split <;> (try split) <;> first | exact h | exact h.deliverEvs _
+  | appApi v e => simp only [Node.step]; split <;> (try split) <;> first | exact h | exact h.deliverEvs _
+  | tick =>
+    simp only [Node.step]
+    split
+    · exact h
+    · exact (h.deliverEvs _).same rfl rfl rfl (fun _ he => he)
+  | powerOn =>
+    simp only [Node.step]
+    (repeat' split) <;> first | exact h | exact (h.deliverEvs _).same rfl rfl rfl (fun _ he => he) | exact h.same rfl rfl rfl (fun _ he => he)
+  | powerOff =>
+    simp only [Node.step]
+    (repeat' split) <;> first | exact h | exact (h.deliverEvs _).same rfl rfl rfl (fun _ he => he) | exact h.same rfl rfl rfl (fun _ he => he)
+  | reqStartup =>
+    simp only [Node.step]
+    (repeat' split) <;> first | exact h | exact (h.deliverEvs _).same rfl rfl rfl (fun _ he => he) | exact h.same rfl rfl rfl (fun _ he => he)
+  | reqShutdown =>
+    simp only [Node.step]
+    (repeat' split) <;> first | exact h | exact (h.deliverEvs _).same rfl rfl rfl (fun _ he => he) | exact h.same rfl rfl rfl (fun _ he => he)
+  | deliver p pr sc => exact h
+  | frame hd sc => simp only [Node.step]; split <;> exact h
+  | send v => simp only [Node.step]; split <;> exact h
+
+/-- **`C13_regwf_run`: the invariant holds after every operation sequence** -/
+theorem C13_regwf_run (ops : List Op) (n : Node) (h : RegWF n) : RegWF (n.run ops) := by
+  induction ops generalizing n with
+  | nil => exact h
+  | cons op ops ih => exact ih _ (C13_regwf_step n op h)
+
+/-- **`C13_regwf_named`**: on every node reachable from registries without software, whatever the power state and durations, every
+sequence of operations: the object stored under a key of `software` carries that key as its name (`software.name == software_name`
+for the object `uninstall` pops), and no object is both a Service and an Application -/
+theorem C13_regwf_named (n0 : Node) (hs : n0.svcs = []) (ha : n0.apps = []) (hw : n0.software = []) (ops : List Op) :
+    OneKind (n0.run ops) ∧ Named (n0.run ops) :=
+  let h := C13_regwf_run ops n0 (C13_regwf_empty n0 hs ha hw)
+  ⟨h.oneKind, h.isNamed⟩
+
 /-- **`C13_gen_uninstall_method`: the WHOLE method.**  `SoftwareManager.uninstall`, translated statement by statement (guard, pop,
-the `isinstance` branches with their list and route writes — `remove_request` raising when the route is missing —, the two clean-up
-statements, in source order), IS `Node.uninstall` — for every node state in which no object is both a service and an application,
-every name. -/
-theorem C13_gen_uninstall_method (n : Node) (name : String) (hk : OneKind n) :
+the `isinstance` branches with their list and route writes — `remove_request(software.name)` with the popped object's OWN name,
+raising when the route is missing —, the two clean-up statements, in source order), IS `Node.uninstall` — for every node state
+satisfying the invariant, every name. -/
+theorem C13_gen_uninstall_method (n : Node) (name : String) (hk : OneKind n) (hn : Named n) :
     Gen.SoftwareRegs.uninstallMethod n name = n.uninstall name := by
   unfold Gen.SoftwareRegs.uninstallMethod Node.uninstall
   cases hd : dget name n.software with
   | none => simp [dhas, hd]
   | some u =>
     have hdh : dhas name n.software = true := by simp [dhas, hd]
-    simp only [hdh, Bool.not_true, Bool.false_eq_true, if_false]
+    have hnm : (n.nameOf u).getD "" = name := by rw [hn name u hd]; rfl
+    simp only [hdh, Bool.not_true, Bool.false_eq_true, if_false, hnm]
     rcases hk u with hs | ha
     · cases ha' : n.findApp u with
       | none => simp [hs, ha']
@@ -74,8 +397,8 @@ theorem C13_gen_uninstall_method (n : Node) (name : String) (hk : OneKind n) :
       | none => simp [hs', ha]
       | some i => cases hr : dhas name n.svcRoutes <;> simp [hs', ha, hr]
 
-/-- non-vacuity of `OneKind`: it holds initially and the translated method really removes (evaluated: dns-client uninstalled) -/
-example : OneKind ({} : Node) := fun _ => Or.inl rfl
+/-- non-vacuity: the translated method really removes (evaluated: dns-client uninstalled) -/
+example : RegWF ({} : Node) := C13_regwf_empty _ rfl rfl rfl
 example :
     let c : Cls := { cid := "DNSClient", name := "dns-client", port := 53, proto := 1 }
     let n := ({} : Node).run [.installSvc c true [] .good 2]
@@ -88,8 +411,8 @@ example :
 /-- **`C13_gen_install_method`: the WHOLE method.**  `SoftwareManager.install`, translated statement by statement (the "already
 installed" guard, the constructor, the eviction through the translated `uninstall`, list and route writes, `start()` / `install()`,
 the three table writes, the forced CLOSED of an application, in source order), IS `Node.installSvc` for a Service class and
-`Node.installApp` for an Application class — for every node state in which no object is both, every class and configuration. -/
-theorem C13_gen_install_method (n : Node) (c : Cls) (cfg : Bool) (l : List Nat) (hl : Health) (f : Int) (hk : OneKind n) :
+`Node.installApp` for an Application class — for every node state satisfying the invariant, every class and configuration. -/
+theorem C13_gen_install_method (n : Node) (c : Cls) (cfg : Bool) (l : List Nat) (hl : Health) (f : Int) (hk : OneKind n) (hn : Named n) :
     Gen.SoftwareRegs.installMethodSvc n c cfg l hl f = n.installSvc c cfg l hl f ∧
     Gen.SoftwareRegs.installMethodApp n c cfg l hl f = n.installApp c cfg l hl f := by
   unfold Gen.SoftwareRegs.installMethodSvc Gen.SoftwareRegs.installMethodApp Node.installSvc Node.installApp Node.installRefused Node.evict
@@ -97,13 +420,24 @@ theorem C13_gen_install_method (n : Node) (c : Cls) (cfg : Bool) (l : List Nat) 
   · simp [hg]
   · simp only [hg, if_false]
     by_cases hsw : dhas c.name n.software = true
-    · simp only [hsw, if_true, C13_gen_uninstall_method n c.name hk]
+    · simp only [hsw, if_true, C13_gen_uninstall_method n c.name hk hn]
       cases hu : n.uninstall c.name with
       | none => simp
       | some n1 =>
         obtain ⟨_, _, hnext, hpow⟩ := uninstall_heap n n1 c.name hu
         simp [Node.registerSvc, Node.registerApp, Node.isOn, hnext, hpow, App.applyAll]
     · simp [hsw, Node.registerSvc, Node.registerApp, Node.isOn, App.applyAll]
+
+/-- **`C13_gen_methods_reachable`: the two whole-method ties WITHOUT hypothesis on reachable nodes.**  Start from any registries
+without software (any power state, any durations), apply any sequence of model operations: on the node reached, the translated
+`SoftwareManager.uninstall` is `Node.uninstall` for every name, and the translated `SoftwareManager.install` is `Node.installSvc` /
+`Node.installApp` for every class, configuration flag, listen list, health and fixing duration. -/
+theorem C13_gen_methods_reachable (n0 : Node) (hs : n0.svcs = []) (ha : n0.apps = []) (hw : n0.software = []) (ops : List Op) :
+    (∀ name, Gen.SoftwareRegs.uninstallMethod (n0.run ops) name = (n0.run ops).uninstall name) ∧
+    (∀ c cfg l hl f, Gen.SoftwareRegs.installMethodSvc (n0.run ops) c cfg l hl f = (n0.run ops).installSvc c cfg l hl f ∧
+                     Gen.SoftwareRegs.installMethodApp (n0.run ops) c cfg l hl f = (n0.run ops).installApp c cfg l hl f) :=
+  let h := C13_regwf_named n0 hs ha hw ops
+  ⟨fun name => C13_gen_uninstall_method _ name h.1 h.2, fun c cfg l hl f => C13_gen_install_method _ c cfg l hl f h.1 h.2⟩
 
 /-! ### programs sharing a (port, protocol) key -/
 
